@@ -40,7 +40,7 @@ func (s *stdSvc) gTargetVia(rt *rapid.T, label string) AVia {
 	default:
 		v.Host = s.ip(10 + ua)
 	}
-	v.Port = rapid.SampledFrom([]int{5060, 6010, 0, 0}).Draw(rt, label+".port")
+	v.Port = rapid.SampledFrom([]int{5060, 6010, 0, 0, s.high}).Draw(rt, label+".port")
 	v.Params = gParamList(rt, label+".params", 3, tokAlpha+"-.!%*_+`'~", viaParamReserved)
 	v.Params = gInsertParam(rt, label+".bpos", v.Params, AParam{K: "branch", V: "z9hG4bK" + s.nextID("t"), HasV: true})
 	// received / rport
@@ -53,7 +53,7 @@ func (s *stdSvc) gTargetVia(rt *rapid.T, label string) AVia {
 	case 0:
 		v.Params = gInsertParam(rt, label+".rppos", v.Params, AParam{K: "rport"})
 	case 1:
-		v.Params = gInsertParam(rt, label+".rppos", v.Params, AParam{K: "rport", V: strconv.Itoa(rapid.SampledFrom([]int{5060, 6010}).Draw(rt, label+".rpv")), HasV: true})
+		v.Params = gInsertParam(rt, label+".rppos", v.Params, AParam{K: "rport", V: strconv.Itoa(rapid.SampledFrom([]int{5060, 6010, s.high, s.high}).Draw(rt, label+".rpv")), HasV: true})
 	case 2:
 		v.Params = gInsertParam(rt, label+".rppos", v.Params, AParam{K: "rport", V: rapid.SampledFrom([]string{"abc", "60x", "-"}).Draw(rt, label+".rpbad"), HasV: true})
 	}
@@ -545,6 +545,9 @@ func TestC02(t *testing.T) {
 			src := s.uas[ua]
 			if rapid.Bool().Draw(rt, "from6010") {
 				src = s.uas2[ua]
+				if rapid.Bool().Draw(rt, "from a port beyond 32767") {
+					src = s.uas3[ua]
+				}
 			}
 			id := s.nextID("c02burst-")
 			// sent-by names another endpoint: only received/rport bring the response home
